@@ -371,6 +371,13 @@ fn wellformed(fas: &[u8], n: usize, missing: f64) -> Result<(Vec<String>, Vec<Ve
     Ok((names, seqs))
 }
 
+fn refb_ok(field: &str, r: u8) -> bool {
+    field.as_bytes().first() == Some(&r)
+}
+fn alts_of(field: &str) -> BTreeSet<u8> {
+    field.split(',').filter(|s| !s.is_empty()).map(|s| s.as_bytes()[0]).collect()
+}
+
 fn canon_col(c: Vec<u8>) -> Vec<u8> {
     let cc: Vec<u8> = c.iter().map(|b| comp(*b)).collect();
     if cc < c {
@@ -509,7 +516,27 @@ impl Workload for LoWorkload {
                     let mut exp: Vec<Vec<u8>> = c.sites.values().map(|s| canon_col(s.as_bytes().to_vec())).collect();
                     exp.sort();
                     if got != exp {
-                        let sig = if got.len() < exp.len() { "lo:isolated-snp-missed" } else if got.len() > exp.len() { "lo:spurious-or-duplicated-snp-column" } else { "lo:snp-column-with-wrong-bases" };
+                        // is every reported column a planted column in which some samples' bases are
+                        // merely reported missing?
+                        let only_missing = got.len() == exp.len() && {
+                            let mut unused: Vec<Vec<u8>> = c.sites.values().map(|s| s.as_bytes().to_vec()).collect();
+                            let raw: Vec<Vec<u8>> = columns(&seqs).unwrap_or_default();
+                            raw.iter().all(|g| {
+                                let hit = unused.iter().position(|e| {
+                                    let ec: Vec<u8> = e.iter().map(|b| comp(*b)).collect();
+                                    [e.clone(), ec].iter().any(|x| g.iter().zip(x.iter()).all(|(a, b)| a == b || *a == b'-'))
+                                });
+                                match hit {
+                                    Some(i) => {
+                                        unused.remove(i);
+                                        true
+                                    }
+                                    None => false,
+                                }
+                            })
+                        };
+                        let missing_sig = format!("lo:true-base-reported-missing[planted-sites{}]", if c.sites.len() >= 5 { ">=5" } else { "<5" });
+                        let sig = if got.len() < exp.len() { "lo:isolated-snp-missed" } else if got.len() > exp.len() { "lo:spurious-or-duplicated-snp-column" } else if only_missing { missing_sig.as_str() } else { "lo:snp-column-with-wrong-bases" };
                         viol = Some((sig.into(), format!("{ctxs}: planted {} sites {:?}, lo reports {} columns {:?}", exp.len(), exp.iter().map(|x| String::from_utf8_lossy(x).to_string()).collect::<Vec<_>>(), got.len(), got.iter().map(|x| String::from_utf8_lossy(x).to_string()).collect::<Vec<_>>())));
                         break;
                     }
@@ -548,7 +575,26 @@ impl Workload for LoWorkload {
                         }
                         let refb = f[3].as_bytes()[0];
                         let alts: Vec<u8> = f[4].split(',').filter(|s| !s.is_empty()).map(|s| s.as_bytes()[0]).collect();
-                        let true_set: BTreeSet<u8> = (0..n).map(|s| truth(s, x)).collect();
+                        // samples genotyped '.' although every sample has a base here
+                        let dotted: Vec<usize> = (0..n).filter(|s| f[9 + s] == ".").collect();
+                        let true_set_all: BTreeSet<u8> = (0..n).map(|s| truth(s, x)).collect();
+                        let true_set: BTreeSet<u8> = (0..n).filter(|s| !dotted.contains(s)).map(|s| truth(s, x)).collect();
+                        let exp_alts: BTreeSet<u8> = true_set.iter().copied().filter(|b| *b != reference[x]).collect();
+                        if !dotted.is_empty() && refb_ok(f[3], reference[x]) && alts_of(f[4]) == exp_alts {
+                            let consistent = (0..n).filter(|s| !dotted.contains(s)).all(|s| {
+                                let t = truth(s, x);
+                                let alts: Vec<u8> = f[4].split(',').filter(|s| !s.is_empty()).map(|s| s.as_bytes()[0]).collect();
+                                f[9 + s] == if t == reference[x] { "0".to_string() } else { (alts.iter().position(|a| *a == t).map(|p| p + 1).unwrap_or(0)).to_string() }
+                            });
+                            if consistent {
+                                viol = Some((
+                                    format!("lo:true-base-reported-missing[planted-sites{}]", if c.sites.len() >= 5 { ">=5" } else { "<5" }),
+                                    format!("{ctxs}: record {line:?}: samples {dotted:?} are genotyped '.' although they carry {:?} (true allele set {:?})", dotted.iter().map(|s| truth(*s, x) as char).collect::<Vec<_>>(), true_set_all.iter().map(|b| *b as char).collect::<Vec<_>>()),
+                                ));
+                                break;
+                            }
+                        }
+                        let true_set = true_set_all;
                         let exp_alts: BTreeSet<u8> = true_set.iter().copied().filter(|b| *b != reference[x]).collect();
                         if refb != reference[x] || alts.iter().copied().collect::<BTreeSet<u8>>() != exp_alts || alts.len() != exp_alts.len() {
                             viol = Some(("lo:vcf-wrong-alleles".into(), format!("{ctxs}: record {line:?}: true REF {} ALT set {:?}", reference[x] as char, exp_alts.iter().map(|b| *b as char).collect::<Vec<_>>())));
